@@ -96,6 +96,11 @@ def pde_shards(exe, sols, seed, cases, points, classes, precs=("d", "l"), dl=Fal
                     args.append("--dl")
                 shards.append(Shard(exe, [str(a) for a in args], "%s%s/%s/%d" % (tag, sol, p, c0), timeout=3600))
                 c0 += n
+    # all solutions in scope on their own handles in one process (init pass, then select-back pass)
+    for p in precs:
+        args = ["--sols", ",".join(sols), "--multi", "--prec", p, "--seed", seed, "--case0", 1000000, "--cases", 3 if cases < 1000 else 12, "--points", 4, "--classes", classes,
+                "--kd", K_D, "--kl", K_L]
+        shards.append(Shard(exe, [str(a) for a in args], "%smulti-handle/%s" % (tag, p), timeout=3600))
     return shards
 
 
